@@ -132,7 +132,8 @@ def _setting(s):
 
 
 def _split(text):
-  lines = text.split("\n")
+  # (line terminators of both formats: CR LF, LF, CR)
+  lines = re.split(r"\r\n|\n|\r", text)
   eofnl = 1
   if lines and lines[-1] == "":
     lines.pop()
